@@ -214,3 +214,58 @@ REG.contract('C01', IB, 'InterpreterBase.evaluate_codeblock', params={'self': Ba
              ghost_seqs={'evs': ('evaluate_statement', 1, Obj)}, opaque_attrs={'lineno': Int, 'colno': Int},
              method_effects={'evaluate_statement': {'returns': Opt(Obj), 'raises': ['Exception']}}, floor=4,
              note='the statements of a block are evaluated in source order, each exactly once; the first failing statement ends the block (no later statement runs)')
+
+# ---- if / elif / else: conditions are evaluated in order until the first true one; exactly that block runs (or the else block when
+# none is true); no later condition and no other block is evaluated.  Stated over ghost sequences of the effects (loop invariant).
+IfCS = Struct('IfClauseNode', 'mesonbuild.mparser:IfClauseNode', ifs=List(Obj), elseblock=Obj)
+BaseIF = Struct('InterpreterBase', 'mesonbuild.interpreterbase.interpreterbase:InterpreterBase', tmp_meson_version=Opt(Obj), subproject=Str, current_node=Obj)
+_PREFIX = "len(conds) <= len(node.ifs) and forall(Int, lambda k: implies(0 <= k and k < len(conds), conds[k] is attr_condition(node.ifs[k])))"
+_EARLIER_FALSE = "forall(Int, lambda k: implies(0 <= k and k < len(conds) - 1, not bools[k]))"
+REG.contract('C01', IB, 'InterpreterBase.evaluate_if', params={'self': BaseIF, 'node': IfCS},
+             requires=['self.subproject in project_meson_versions'], modifies=['self.tmp_meson_version'],
+             ensures=[_PREFIX, "len(conds) - 1 <= len(bools) and len(bools) <= len(conds)", _EARLIER_FALSE, "len(blocks) <= 1",
+                      # a block ran: either the block of the LAST evaluated condition, which was true — or every condition was evaluated and false and it is the else block
+                      "((len(bools) == len(conds) and len(conds) >= 1 and bools[len(conds) - 1] and blocks[0] is attr_block(node.ifs[len(conds) - 1])) or "
+                      " (len(bools) == len(node.ifs) and len(conds) == len(node.ifs) and (len(conds) == 0 or not bools[len(conds) - 1]) and not isinst(node.elseblock, mparser.EmptyNode) and blocks[0] is attr_block(node.elseblock))) "
+                      "if len(blocks) == 1 else True",
+                      # no block ran and nothing was returned: every condition was evaluated and false, and there is no else block
+                      "(len(conds) == len(node.ifs) and len(bools) == len(conds) and (len(conds) == 0 or not bools[len(conds) - 1]) and isinst(node.elseblock, mparser.EmptyNode)) "
+                      "if (len(blocks) == 0 and result is None) else True",
+                      # a disabler condition ends the statement at once and is its value
+                      "(len(blocks) == 0 and len(bools) == len(conds) - 1 and isinst(result, Disabler)) if result is not None else True"],
+             raises={'MesonException': 'True', 'Exception': 'True'}, exact_raises=False,
+             loops={0: Loop(invariant=["self.subproject in project_meson_versions", "len(conds) == __i and len(bools) == __i and len(blocks) == 0",
+                                       "forall(Int, lambda k: implies(0 <= k and k < __i, conds[k] is attr_condition(node.ifs[k])))",
+                                       "forall(Int, lambda k: implies(0 <= k and k < __i, not bools[k]))"],
+                            locals={'result': Opt(Obj), 'res': Obj, 'prev_meson_version': Obj, 'always': Opt(Obj)})},
+             ghost_seqs={'conds': ('evaluate_statement', 1, Obj), 'bools': ('operator_call', -1, Obj), 'blocks': ('evaluate_codeblock', 1, Obj)},
+             opaque_attrs={'condition': Obj, 'block': Obj}, opaque_globals={'project_meson_versions': Dict(Str, Obj)},
+             opaque={'always': ([Obj], Opt(Obj)), 'intersect': ([Obj], Obj)},
+             method_effects={'evaluate_statement': {'returns': Opt(Obj), 'raises': ['MesonException']}, 'evaluate_codeblock': {'raises': ['Exception']},
+                             'operator_call': {'returns': Obj, 'raises': ['MesonException']}}, floor=8,
+             note='if / elif / else: the conditions are evaluated in order, each at most once, up to and including the first true one; exactly the block of that condition runs, or the else block when every condition is false; a disabler condition is the value of the statement and nothing further is evaluated')
+
+# ---- foreach over an array / a range (one loop variable): for each element in order the variable is bound to the (holderified)
+# element and then the block runs; `continue` goes on with the next element, `break` ends the loop; nothing else is evaluated
+FES = Struct('ForeachClauseNode', 'mesonbuild.mparser:ForeachClauseNode', items=Obj, varnames=List(Obj), block=Obj)
+REG.contract('C01', IB, 'InterpreterBase.evaluate_foreach', variant='one-variable', params={'self': BaseS, 'node': FES},
+             ensures=["len(its) == 1 and its[0] is node.items",
+                      "len(hol) <= len(seqs[0]) and forall(Int, lambda k: implies(0 <= k and k < len(hol), hol[k] is seqs[0][k]))",
+                      "len(svn) == len(hol) and len(svv) == len(hol) and len(cbs) == len(hol)",
+                      "forall(Int, lambda k: implies(0 <= k and k < len(hol), svv[k] is holr[k] and cbs[k] is node.block))",
+                      "forall(Int, lambda k: implies(0 <= k and k < len(hol), svn[k] == attr_value(node.varnames[0])))",
+                      # every element was visited unless the block asked to break
+                      "len(hol) == len(seqs[0]) or len(brk) == 1"],
+             raises={'InvalidArguments': 'True', 'MesonException': 'True'}, exact_raises=False,
+             loops={0: Loop(invariant=["len(hol) == __i and len(holr) == __i and len(svn) == __i and len(svv) == __i and len(cbs) == __i and len(brk) == 0",
+                                       "len(its) == 1 and its[0] is node.items and len(seqs) == 1 and __seq == seqs[0]",
+                                       "forall(Int, lambda k: implies(0 <= k and k < __i, hol[k] is __seq[k] and svv[k] is holr[k] and cbs[k] is node.block))",
+                                       "forall(Int, lambda k: implies(0 <= k and k < __i, svn[k] == attr_value(node.varnames[0])))"],
+                            locals={'i': Obj})},
+             ghost_seqs={'brk': ('raised BreakRequest', None, Int), 'its': ('evaluate_statement', 1, Obj), 'hol': ('_holderify', 1, Obj), 'holr': ('_holderify', -1, Obj), 'svn': ('set_variable', 1, Str),
+                         'svv': ('set_variable', 2, Obj), 'cbs': ('evaluate_codeblock', 1, Obj), 'seqs': ('iter_self', -1, Seq(Obj))},
+             opaque_attrs={'value': Str}, opaque={'iter_tuple_size': ([], Const(None)), 'display_name': ([], Str)},
+             method_effects={'evaluate_statement': {'returns': Opt(Obj), 'raises': ['MesonException']}, '_holderify': {'returns': Obj, 'raises': []},
+                             'set_variable': {'raises': ['MesonException']}, 'iter_self': {'returns': Seq(Obj), 'raises': []},
+                             'evaluate_codeblock': {'raises': ['ContinueRequest', 'BreakRequest', 'MesonException']}}, floor=6,
+             note='foreach with one loop variable (arrays, range()): the iterable is evaluated once; for each element in order the loop variable is bound to the holderified element, then the block runs; continue skips to the next element, break ends the loop')
